@@ -363,19 +363,21 @@ def _include_load(job, ctx):
             node[parts[-1]] = v
         return t
     subsets = [c for r in range(len(INC_LEAVES) + 1) for c in itertools.combinations(INC_LEAVES, r)]
-    for where in ("root", "sub"):
+    seconds = {"root": [None], "sub": [None], "two": [("sub.w2",), ("a", "sub.deep.e")], "chain": [("sub.w2",), ("a", "sub.deep.e")]}
+    for where in ("root", "sub", "two", "chain"):
         for fmt in fmts:
             for main in subsets:
-                for inc in subsets:
+                for inc, inc2 in itertools.product(subsets, seconds[where]):
                     if where == "sub" and "a" in inc:
                         continue
-                    ident = [where, fmt, list(main), list(inc)]
+                    ident = [where, fmt, list(main), list(inc)] + ([list(inc2)] if inc2 else [])
                     if only is not None and only != ident:
                         continue
                     s = cc.Schema()
                     s.a = cc.IntField(default=1)
                     s.w = cc.IntField(default=0)
                     s.include = cc.IncludeField(startdir=ctx.tmp)
+                    s.include2 = cc.IncludeField(startdir=ctx.tmp)       # a second include field in the same scope
                     s.sub.c = cc.IntField(default=2)
                     s.sub.w2 = cc.IntField(default=3)
                     s.sub.inc = cc.IncludeField(startdir=ctx.tmp)
@@ -387,9 +389,19 @@ def _include_load(job, ctx):
                         inc_tree = inc_tree.get("sub", {})
                     with open(os.path.join(ctx.tmp, "part.inc"), "wb") as fh:
                         fh.write(f.dumps(None, inc_tree))
+                    if inc2:
+                        # two includes in one scope, both named by the document ("two") or the second named by the first file ("chain")
+                        if where == "chain":
+                            inc_tree["include2"] = "part2.inc"
+                            with open(os.path.join(ctx.tmp, "part.inc"), "wb") as fh:
+                                fh.write(f.dumps(None, inc_tree))
+                        with open(os.path.join(ctx.tmp, "part2.inc"), "wb") as fh:
+                            fh.write(f.dumps(None, nest({p: 30 + INC_LEAVES.index(p) for p in inc2})))
                     main_tree = nest({p: 10 + INC_LEAVES.index(p) for p in main})
-                    if where == "root":
+                    if where in ("root", "two", "chain"):
                         main_tree["include"] = "part.inc"
+                        if where == "two":
+                            main_tree["include2"] = "part2.inc"
                     else:
                         main_tree.setdefault("sub", {})["inc"] = "part.inc"
                     cfg = s()
@@ -406,8 +418,10 @@ def _include_load(job, ctx):
                         owner = W.chained(cfg, path.rsplit(".", 1)[0]) if "." in path else cfg
                         key = path.rsplit(".", 1)[-1]
                         want = 20 + INC_LEAVES.index(path) if path in inc else (10 + INC_LEAVES.index(path) if path in main else defaults[path])
+                        if inc2 and path in inc2:
+                            want = 30 + INC_LEAVES.index(path)          # the second include is merged after the first
                         got, defined = getattr(owner, key), cc.is_value_defined(owner, key)
-                        named = path in inc or path in main
+                        named = path in inc or path in main or bool(inc2 and path in inc2)
                         if got != want:
                             ctx.violation(fp + "value|" + ("named" if named else "unnamed"), "main names %s, include names %s: %s reads %r, expected %r" % (list(main), list(inc), path, got, want), case)
                         if defined != named:
